@@ -1,4 +1,5 @@
 import Capella.Lemmas.Svg
+import Capella.Lemmas.SvgDefsUnique
 import Capella.Lemmas.Wrap
 import Capella.Gen.StylesWF
 
@@ -165,6 +166,155 @@ theorem C18_use_rejection_partial (T : Tables) (o : Obj) (p : Prep) (h : useReje
   simp only [Bool.and_eq_true, decide_eq_true_eq, List.any_eq_true, Bool.or_eq_true] at h
   exact ⟨h.1.1, h.2⟩
 
+
+/-! ### the `<defs>` section as a state: closure through every shortcut, nothing deployed twice
+
+`Capella/Model/SvgDefs.lean` models what `Drawing` keeps between `draw_object` calls (`<defs>` in
+document order, `deco_cache`) and how `_add_decofactory` / `_deploy_defs` skip what is already there. -/
+
+/-- the generated tables: colour values are hex strings; symbol dependencies have depth ≤ 1 (hence a rank
+that strictly decreases along `needs`); marker names and `CustomGradient` contain no `_` -/
+theorem tables_defs_wf : StylesHexOK styleEntries ∧
+    (∀ cls r, findSymbol symbolRows cls = some r → ∀ d ∈ r.deps, rankOf symbolRows d < rankOf symbolRows cls) ∧
+    (∀ m ∈ markerRows, '_' ∉ m.name) ∧ '_' ∉ gradName := by
+  refine ⟨?_, rankOf_decreases symbols_depth, ?_, ?_⟩
+  · intro e he p hp
+    exact (List.all_eq_true.mp ((List.all_eq_true.mp styles_hex) e he)) p hp
+  · intro m hm
+    have h := marker_names_ok
+    simp only [Bool.and_eq_true, List.all_eq_true] at h
+    have := h.1 m hm
+    simpa [markerNameOK] using this
+  · have h := marker_names_ok
+    simp only [Bool.and_eq_true] at h
+    simpa using h.2
+
+/-- **Every reference has a definition — on the real drawing state, any number of elements in any order.**
+For every table with a well-formed symbol table and every diagram: when rendering succeeds, every id a group
+references itself (`url(#marker)`, `url(#gradient)`, `href="#…Symbol"`) is the id of a child of `<defs>`, and
+every id referenced from inside the symbol fragments is defined inside `<defs>` — although `_deploy_defs`
+skips ids it finds in `defs_ids` and `_add_decofactory` is skipped for names in `deco_cache`. -/
+theorem render_refs_defined (T : Tables) (wf : T.WF) (dg : Diagram) (doc : DocS) (h : renderS T dg = .ok doc) :
+    (∀ r ∈ doc.outerRefs, r ∈ doc.defs.map (·.id)) ∧ ∀ r ∈ doc.refs, r ∈ doc.defs.flatMap (·.ids) := by
+  unfold renderS at h
+  simp only [bind, Except.bind] at h
+  cases hd : drawAllS T dg.cls (encodeDiagram dg).2 {} with
+  | error e => simp [hd] at h
+  | ok p =>
+    obtain ⟨drawn, st⟩ := p
+    simp only [hd, pure, Except.pure, Except.ok.injEq] at h
+    subst h
+    obtain ⟨i, _, ho, hi⟩ := drawAllS_closed wf _ _ _ _ hd (Inv.empty _)
+    refine ⟨ho, ?_⟩
+    intro r hr
+    simp only [DrawnS.refs, List.mem_flatMap, List.mem_append] at hr
+    obtain ⟨d, hd', hr⟩ := hr
+    rcases hr with hr | hr
+    · exact i.topSub r (ho r (List.mem_flatMap.mpr ⟨d, hd', hr⟩))
+    · exact hi r (List.mem_flatMap.mpr ⟨d, hd', hr⟩)
+
+theorem count_eq_one_of_nodup {l : List (List Char)} {a : List Char} (hn : l.Nodup) (ha : a ∈ l) : l.count a = 1 := by
+  induction l with
+  | nil => cases ha
+  | cons x xs ih =>
+    rw [List.nodup_cons] at hn
+    rw [List.count_cons]
+    by_cases hx : x = a
+    · subst hx
+      have : List.count x xs = 0 := List.count_eq_zero.mpr hn.1
+      simp [this]
+    · have hin : a ∈ xs := by
+        rcases List.mem_cons.mp ha with h | h
+        · exact absurd h.symm hx
+        · exact h
+      simp [ih hn.2 hin, hx]
+
+/-- **Definitions are emitted once, however many elements use them; every reference of a group has exactly
+ONE definition.** For every table (well-formed symbols, hex colour values, acyclic ranked dependencies) and
+every diagram whose style overrides carry hex colour values: the children of `<defs>` have pairwise different
+ids, a marker or gradient defines nothing but its own id, and each id referenced by a group is the id of
+exactly one child of `<defs>`. -/
+theorem defs_deployed_once (T : Tables) (wf : T.WF) (hs : StylesHexOK T.styles) (rank : List Char → Nat)
+    (hrank : ∀ cls r, findSymbol T.symbols cls = some r → ∀ d ∈ r.deps, rank d < rank cls)
+    (dg : Diagram) (hov : ∀ e ∈ dg.elems, ∀ p ∈ e.obj.style, p.2.hexOK = true)
+    (doc : DocS) (h : renderS T dg = .ok doc) :
+    (doc.defs.map (·.id)).Nodup ∧ (∀ e ∈ doc.defs, e.kind ≠ .symbol → e.ids = [e.id]) ∧
+    ∀ r ∈ doc.outerRefs, (doc.defs.map (·.id)).count r = 1 := by
+  have hclosed := (render_refs_defined T wf dg doc h).1
+  unfold renderS at h
+  simp only [bind, Except.bind] at h
+  cases hd : drawAllS T dg.cls (encodeDiagram dg).2 {} with
+  | error e => simp [hd] at h
+  | ok p =>
+    obtain ⟨drawn, st⟩ := p
+    simp only [hd, pure, Except.pure, Except.ok.injEq] at h
+    subst h
+    have hov' : ∀ o ∈ (encodeDiagram dg).2, AllVals (fun v => v.hexOK = true) o.style := by
+      intro o ho
+      simp only [encodeDiagram, List.mem_map, List.mem_filter] at ho
+      obtain ⟨e, ⟨he, _⟩, rfl⟩ := ho
+      exact hov e he
+    have n := drawAllS_ninv wf hs rank hrank _ _ _ _ hov' hd NInv.empty
+    exact ⟨n.nodup, n.single, fun r hr => count_eq_one_of_nodup n.nodup (hclosed r hr)⟩
+
+/-- … in particular for the generated tables (every diagram, any overrides with hex colour values). -/
+theorem defs_deployed_once_generated (dg : Diagram) (hov : ∀ e ∈ dg.elems, ∀ p ∈ e.obj.style, p.2.hexOK = true)
+    (doc : DocS) (h : renderS tables dg = .ok doc) :
+    (doc.defs.map (·.id)).Nodup ∧ (∀ e ∈ doc.defs, e.kind ≠ .symbol → e.ids = [e.id]) ∧
+    ∀ r ∈ doc.outerRefs, (doc.defs.map (·.id)).count r = 1 :=
+  defs_deployed_once tables tables_wf.1 tables_defs_wf.1 (rankOf symbolRows) tables_defs_wf.2.1 dg hov doc h
+
+/-- **`Styling._generate_id` is injective in (name, colours)**: two markers / gradients get the same id only
+if they have the same factory name and the same colour list (names without `_` — all marker names and
+`CustomGradient`, by `tables_defs_wf` — and `_`-free colour strings, which every `RGB.tohex()` is). -/
+theorem generate_id_injective (n n' : List Char) (hs hs' : List (List Char)) (hn : '_' ∉ n) (hn' : '_' ∉ n')
+    (hc : ∀ h ∈ hs, '_' ∉ h) (hc' : ∀ h ∈ hs', '_' ∉ h) (he : joinId n hs = joinId n' hs') : n = n' ∧ hs = hs' :=
+  joinId_injective hn hn' hc hc' he
+
+/-- the colour strings that reach `_generate_id` are `_`-free: `RGB.fromcss(v).tohex()` of a hex-valued `v` -/
+theorem generate_id_colours_clean (v : Val) (h : List Char) (hv : v.hexOK = true) (hh : hexOf v = .ok h) : '_' ∉ h :=
+  fun hin => (hexOf_clean hv hh '_' hin).2 rfl
+
+/-! #### ids defined *inside* symbol fragments: not unique
+
+The full claim "no id is defined twice in the document" is false: three icon factories each define the radial
+gradient `brown_oval` (with identical content — `digests_consistent`), so a diagram showing two of them defines
+it twice. References still resolve, to identical definitions; the statement of C18 does not ask for uniqueness. -/
+
+/-- the full claim: no id at all is defined twice -/
+def C18_all_ids_unique : Prop :=
+  ∀ (dg : Diagram) (doc : DocS), renderS tables dg = .ok doc → (doc.defs.flatMap (·.ids)).Nodup
+
+def missionAndCapability : Diagram :=
+  { cls := some "Missions Capabilities Blank".toList, viewport := none,
+    elems := [⟨false, { plainObj .box "Mission".toList with id := "m".toList, hasLabel := true }⟩,
+              ⟨false, { plainObj .box "Capability".toList with id := "c".toList, hasLabel := true }⟩] }
+
+theorem C18_all_ids_unique_fails : ¬ C18_all_ids_unique := by
+  intro h
+  have hr : (renderS tables missionAndCapability).map (fun d => d.defs.flatMap (·.ids)) =
+      .ok ["MissionSymbol".toList, "brown_oval".toList, "CapabilitySymbol".toList, "brown_oval".toList] := by
+    decide +kernel
+  cases hd : renderS tables missionAndCapability with
+  | error e => rw [hd] at hr; cases hr
+  | ok doc =>
+    have := h missionAndCapability doc hd
+    rw [hd] at hr
+    simp only [Except.map, Except.ok.injEq] at hr
+    rw [hr] at this
+    revert this
+    decide
+
+/-- the strongest true statement (partial): an id that is defined twice is never the id of a child of `<defs>`
+— it sits inside a `<symbol>` fragment (`defs_deployed_once`: children's ids are pairwise different, markers and
+gradients define only their own id) —, the ids that two fragments of the generated symbol table share are exactly
+the observed ones (`brown_oval`), and equal ids there have byte-identical definitions. -/
+theorem C18_all_ids_unique_partial :
+    clashIds symbolRows = ["brown_oval".toList] ∧ digestsConsistent symbolIdDigests = true ∧
+    (symbolRows.filter (·.ids.contains "brown_oval".toList)).map (·.name) =
+      ["OperationalCapabilitySymbol".toList, "MissionSymbol".toList, "CapabilitySymbol".toList] :=
+  ⟨clash_ids_eq.trans (by decide +kernel), digests_consistent, by decide +kernel⟩
+
 /-! ### label text -/
 
 /-- **Wrapping neither drops, adds, splits nor reorders a word** — for every text-extent function,
@@ -270,5 +420,21 @@ example : (drawObject tables (some "Physical Architecture Blank".toList)
 -- wrapping with a concrete extent (1 per character), width 5
 example : wordWrap (· = ' ') (fun s => (s.length : Rat)) 5 ["  ab cd  efg h".toList]
     = ["  ab cd".toList, "efg h".toList] := by decide +kernel
+
+-- a history: two edges sharing marker and stroke, a gradient used by two boxes, a human actor after a stick figure:
+-- each definition once, in deployment order
+def historyExample : Diagram :=
+  let e1 : Obj := { plainObj .edge "ComponentExchange".toList with id := "e1".toList, style := [("marker-end".toList, .str "DiamondMark".toList)] }
+  let e2 : Obj := { plainObj .edge "FunctionalExchange".toList with id := "e2".toList, style := [("marker-end".toList, .str "DiamondMark".toList), ("stroke".toList, .str "#4a4a97".toList)] }
+  let s1 : Obj := { plainObj .symbol "StickFigure".toList with id := "s".toList }
+  let b1 : Obj := { plainObj .box "LogicalHumanActor".toList with id := "b".toList, hasLabel := true }
+  let b2 : Obj := { plainObj .box "LogicalActor".toList with id := "b2".toList }
+  { cls := some "Logical Architecture Blank".toList, viewport := none,
+    elems := [⟨false, e1⟩, ⟨false, e2⟩, ⟨false, e2⟩, ⟨false, s1⟩, ⟨false, b1⟩, ⟨false, b2⟩] }
+
+example : (renderS tables historyExample).map (fun d => d.defs.map (·.id)) =
+    .ok ["DiamondMark_4A4A97".toList, "StickFigureSymbol".toList, "LogicalHumanActorSymbol".toList,
+         "CustomGradient_C3E6FF_96B1DA".toList, "CustomGradient_DAFDFF_C6E6FF".toList] := by
+  decide +kernel
 
 end Capella.Props.C18
